@@ -48,6 +48,15 @@ def run(ck, prog, ctx):
             chained = {t.dest.local for bi, t in adapt if t.dest is not None and t.dest.is_local()}
             adapt = [(bi, t) for bi, t in adapt if not (t.args and t.args[0].place is not None and t.args[0].place.is_local() and t.args[0].place.local in chained)] or adapt
             recvs = [pv.of_operand(b, t.args[0]) for bi, t in adapt] or [pv.of_operand(b, t.args[0]) for bi, t in loops]
+            # the accessor only hands closures (the two lookups, the delta constructor) to ONE crate-private generic helper that does the walking:
+            # which side is iterated and which probed is decided inside that helper, over closure parameters - not read by the rules of this section
+            deleg_h = [(bi, t) for bi, t in b.calls() if t.callee.res in prog.bodies and prog.bodies[t.callee.res].kind in ("Fn", "AssocFn") and not prog.bodies[t.callee.res].exported and not prog.bodies[t.callee.res].reachable
+                       and len([a for a in t.args if pv.closure_of_operand(b, a)]) >= 2]
+            if not recvs and len(deleg_h) == 1:
+                hb_ = prog.bodies[deleg_h[0][1].callee.res]
+                for part in ("iterates", "looks-up", "delta"):
+                    ck.undecided("ROLE", name + "/" + part, "%s hands its lookups and its delta constructor as closures to the private helper %s: the pairing of old and new records happens there, over closure parameters" % (name, hb_.short), where=b.where(deleg_h[0][1].line))
+                continue
             if not recvs:
                 ck.undecided("ROLE", name + "/iterates", "iteration not recognised", where=b.where())
             else:
